@@ -2,30 +2,36 @@
 (* Trace validation for the C16 stale-writer stage.  One ndjson record per schedule replayed on the REAL
    stream.Stream / SubStream (package stream, in-package control of Stream.mutex):
 
-     id, holder, gates: << "HAcq" | "HRel" | "WCall" | "RCall" >>,
+     id, mode, gates: << "HAcq" | "HRel" | "SHold" | "SRel" | "WCall" | "RCall" >>,
+                               (SHold/SRel: the harness holds Stream.outDescMutex for reading, so that a write whose unit
+                               carries new parameter sets stops inside WriteUnit, past the guard, before the fan-out)
      obs:  << [w, r, try] >>   after gate k, once every started goroutine has finished or is parked on the mutex
-                               (read from runtime.Stack):  w = "notstarted" | "blocked" (parked in RWMutex.RLock) | "done"
+                               (read from runtime.Stack):  w = "notstarted" | "blocked" (parked in RWMutex.RLock of Stream.mutex)
+                               | "stalled" (parked in RWMutex.Lock of outDescMutex: inside, nothing handed over yet) | "done"
                                r = "notstarted" | "pending" (parked in RWMutex.Lock) | "done" (Initialize returned)
                                try = "fails" | "succeeds" | "" : Stream.mutex.TryRLock() while the harness holds the read lock
      delivered: << tag >>      first payload byte of every unit the reader received, in order, after a sentinel written
                                by the new publisher has come through (so nothing is still queued)
      stale: tag                the tag of the unit publisher A wrote in gate WCall
 
-   Verdict (the statement, Go's RWMutex contract assumed): if at some point the replacement was under way or complete
-   while A's WriteUnit had not obtained the lock yet, A's write is ordered after the swap (a waiting Lock blocks new
-   RLocks), so its unit must not reach the reader.   Drift: equality with what layer 1 predicts for the schedule.    *)
+   Verdict (the statement, Go's RWMutex contract assumed): A's unit must not reach the reader if its hand-over certainly
+   came after the replacement: (a) Initialize had RETURNED while A's WriteUnit had not handed anything over yet (not started,
+   waiting for the lock, or stopped inside before the fan-out), or (b) the replacement was waiting for the lock while A's
+   WriteUnit had not obtained it yet (a waiting Lock blocks new RLocks, so the write is ordered after the swap).   Drift: equality with what layer 1 predicts for the schedule.    *)
 EXTENDS StaleWriter
 
 Trace == ndJsonDeserialize("C16sw_trace.ndjson")
 
 VARIABLE l
-TraceInit == l = 0 /\ s = Init0(TRUE, TRUE)
+TraceInit == l = 0 /\ s = Init0(TRUE, "plain")
 TraceNext == l < Len(Trace) /\ l' = l + 1 /\ UNCHANGED s
 TraceSpec == TraceInit /\ [][TraceNext]_<<l, s>>
 
 \* A's write certainly took effect after the replacement
 WriteOrderedAfterSwap(t) ==
-    \E k \in 1..Len(t.obs) : t.obs[k].r \in {"pending", "done"} /\ t.obs[k].w \in {"notstarted", "blocked"}
+    \E k \in 1..Len(t.obs) :
+        \/ t.obs[k].r = "done" /\ t.obs[k].w \in {"notstarted", "blocked", "stalled"}
+        \/ t.obs[k].r = "pending" /\ t.obs[k].w \in {"notstarted", "blocked"}
 StaleReached(t) == \E i \in 1..Len(t.delivered) : t.delivered[i] = t.stale
 \* "no data written by a replaced or removed publisher reaches readers afterwards"
 StatementOK(t) == WriteOrderedAfterSwap(t) => ~StaleReached(t)
@@ -39,7 +45,7 @@ ConformsFrom(t, u, k) ==
               /\ t.obs[k].w = ObsW(n) /\ t.obs[k].r = ObsR(n)
               /\ (t.obs[k].try # "" => (t.obs[k].try = "fails") = n.pending)
               /\ ConformsFrom(t, n, k + 1)
-Conforms(t) == ConformsFrom(t, Init0(TRUE, t.holder), 1)
+Conforms(t) == ConformsFrom(t, Init0(TRUE, t.mode), 1)
 
 Verdicts == l >= 1 => Monitor(StatementOK(Trace[l]), [l |-> l, id |-> Trace[l].id, monitor |-> "NoStaleDelivery"])
 Drift    == l >= 1 => (Conforms(Trace[l]) \/ Emit("DRIFT", [l |-> l, id |-> Trace[l].id]))
